@@ -122,6 +122,23 @@ def run(case: dict, *, count_only: bool = False) -> Obs:
     tcp = case.get("tcp", "ok")
     tcp_delay = int(case.get("tcp_delay", 4)) * D
     env.tcp_script = [("ok", tcp_delay)] if tcp == "ok" else [("refuse", tcp_delay)] if tcp == "refuse" else [("hang",)]
+    if case.get("tcp_script"):
+        # one outcome per TCP attempt (the last one repeats): ["ok"|"refuse"|"oserror", delay in D] | ["hang"]
+        env.tcp_script = [(x[0], int(x[1]) * D) if len(x) > 1 else (x[0],) for x in case["tcp_script"]]
+    addresses = case.get("addresses") or ["10.0.0.1"]
+    for host, script in (case.get("dns") or {}).items():
+        # OS resolver script per host name: ["ok", [ips], delay] | ["empty", delay] | ["error", delay] | ["hang"]
+        if script[0] == "ok":
+            env.dns[host] = ("ok", list(script[1]), int(script[2]) * D if len(script) > 2 else D)
+        elif script[0] == "hang":
+            env.dns[host] = ("hang",)
+        else:
+            env.dns[host] = (script[0], int(script[1]) * D if len(script) > 1 else D)
+    n_addr = 0
+    for a in addresses:
+        sc = env.dns.get(a)
+        n_addr += len(sc[1]) if sc and sc[0] == "ok" else 1
+    obs.n_addr = max(1, n_addr)
     if not case.get("auto", True):
         dev.auto = set()
     dev.latency = int(case.get("latency", 1)) * D
@@ -151,6 +168,8 @@ def run(case: dict, *, count_only: bool = False) -> Obs:
         noise_psk=base64.b64encode(KEY).decode() if noise else None,
         keepalive=K,
         expected_name=case.get("expected_name"),
+        address=addresses[0],
+        addresses=addresses if len(addresses) > 1 else None,
     )
     user_disc = [False]
 
@@ -268,8 +287,10 @@ def run(case: dict, *, count_only: bool = False) -> Obs:
 
     if not count_only:
         for idx, ev in enumerate(case.get("events") or []):
-            if "it" in ev:
+            if "it" in ev:  # start of iteration k: before the handles already ready
                 loop.inject_at_iteration(int(ev["it"]), lambda ev=ev, idx=idx: do_event(ev, idx))
+            elif "ite" in ev:  # queued during iteration k: after the handles already ready
+                loop.inject_at_iteration(int(ev["ite"]), lambda ev=ev, idx=idx: loop.call_soon(do_event, ev, idx))
             else:
                 loop.sim_at(int(ev["at"]) * TICK, do_event, ev, idx)
 
@@ -599,7 +620,11 @@ def _event_strategy(max_iter: int):
         st.sampled_from([s * 256 for s in (1, 5, 10, 30, 32, 33, 60, 64, 90, 144, 176, 200)]),
         st.integers(0, 256 * 220),
     )
-    when = st.one_of(ticks.map(lambda t: ("at", t)), st.integers(1, max_iter).map(lambda k: ("it", k)))
+    when = st.one_of(
+        ticks.map(lambda t: ("at", t)),
+        st.integers(1, max_iter).map(lambda k: ("it", k)),
+        st.integers(1, max_iter).map(lambda k: ("ite", k)),
+    )
     return st.tuples(act, when).map(lambda aw: {**aw[0], aw[1][0]: aw[1][1]})
 
 
@@ -631,3 +656,75 @@ def case_strategy(draw, tier: str = "quick", max_events: int = 4, min_events: in
         c["password"] = "pw"
     c["events"] = draw(st.lists(_event_strategy(45), min_size=min_events, max_size=max_events))
     return c
+
+
+# ===========================================================================
+# enumerated sweeps (finite sub-domains)
+# ===========================================================================
+SWEEP_CAUSES: list[dict] = (
+    [{"do": a} for a in ("disconnect", "force", "cancel", "eof", "reset", "writefail_raise", "writefail_fatal")]
+    + [{"do": "chunk", "frames": f} for f in (["discreq"], ["garbage"], ["reqenc"], ["badproto"], ["badmac"], ["unknown"])]
+    + [{"do": "chunk", "frames": f} for f in (["discreq", "state"], ["discreq", "ping"], ["discreq", "discreq"], ["garbage", "state"], ["state", "discreq", "state2"], ["badproto", "state"])]
+)
+
+
+def golden_scenarios() -> list[dict]:
+    out = []
+    for noise in (False, True):
+        for login in (False, True):
+            for flow in ("connect", "full", "full+disconnect"):
+                out.append({"noise": noise, "login": login, "flow": flow, "K": 8.0, "events": [], "final_at": 200.0})
+    out.append({"noise": False, "login": True, "flow": "full", "K": 8.0, "split": 1, "gap": 2, "events": [], "final_at": 200.0})
+    out.append({"noise": True, "login": False, "flow": "connect", "K": 8.0, "split": 1, "gap": 1, "events": [], "final_at": 200.0})
+    return out
+
+
+_GOLDEN_ITERS: dict[str, int] = {}
+
+
+def golden_iterations(sc: dict) -> int:
+    """Loop iterations of the scenario until its main flow is over (+3), measured by running it."""
+    import json
+
+    key = json.dumps(sc, sort_keys=True)
+    if key not in _GOLDEN_ITERS:
+        obs = run(sc, count_only=True)
+        end = [e["it"] for e in obs.trace if e["kind"] == "op_end" and e["op"] == "main"]
+        _GOLDEN_ITERS[key] = (end[0] if end else obs.iterations) + 3
+    return _GOLDEN_ITERS[key]
+
+
+def single_fault_sweep(scenarios: list[dict] | None = None, causes: list[dict] | None = None):
+    """Every cause injected at the start of every loop iteration of every golden scenario."""
+    for sc in scenarios or golden_scenarios():
+        n = golden_iterations(sc)
+        for k in range(1, n + 1):
+            for cause in causes or SWEEP_CAUSES:
+                yield {**sc, "events": [{**cause, "it": k}]}
+                yield {**sc, "events": [{**cause, "ite": k}]}
+
+
+def pair_fault_sweep(sc: dict, causes: list[dict]):
+    n = golden_iterations(sc)
+    for k1 in range(1, n + 1):
+        for k2 in range(k1, n + 1):
+            for c1 in causes:
+                for c2 in causes:
+                    yield {**sc, "events": [{**c1, "it": k1}, {**c2, "it": k2}]}
+
+
+def hello_trailer_sweep():
+    """Device answers the hello with extra frames in the same chunk / split chunks."""
+    trailers = [[f] for f in sorted(CLOSING_FRAMES)] + [
+        ["discreq", "state"], ["state", "discreq"], ["ping", "discreq"], ["garbage", "state"], ["discreq", "discreq"],
+        ["state"], ["ping"], ["unknown"], ["gettime"],
+    ]
+    for noise in (False, True):
+        for login in (False, True):
+            for flow in ("connect", "full"):
+                for tr in trailers:
+                    for cuts in (None, [0], [3], [14], [16], [17], [20]):
+                        c = {"noise": noise, "login": login, "flow": flow, "K": 8.0, "hello_extra": tr, "events": [], "final_at": 200.0}
+                        if cuts:
+                            c["hello_cuts"] = cuts
+                        yield c
